@@ -38,4 +38,5 @@ def ungroup(grouped: torch.Tensor, axis: int, orig_shape: torch.Size):
     ungrouped = grouped.reshape(group_size, axis_dim, axis_groups)
     # Permute to (axis_groups, group_size, axis_dim)
     ungrouped = ungrouped.permute(2, 0, 1)
-    return ungrouped.reshape(orig_shape)
+    # The reshape below may return a non-contiguous view when one of the dimensions is one
+    return ungrouped.reshape(orig_shape).contiguous()
